@@ -53,7 +53,9 @@ def build_san(sb):
         o = f'{exe}.{i}.o'
         fl = sb.flags() if i < 2 else ['-std=c++17', '-O1', '-g', '-w']  # driver + generators are not instrumented code under test
         if i >= 2 and sb.mode == 'report':
-            fl = fl + ['-fsanitize=address']  # lets san_main.cc see __SANITIZE_ADDRESS__ / define __asan_on_error
+            fl = fl + ['-fsanitize=address']
+        if i >= 2 and sb.mode == 'trap':
+            fl = fl + ['-DVERIF_SAN_TRAP=1']  # lets san_main.cc see __SANITIZE_ADDRESS__ / define __asan_on_error
         r = V.run([sb.compiler] + fl + [f'-DVERIF_CFG="{sb.name}"', '-c', srcs[i], '-o', o])
         if r.returncode != 0:
             raise V.Inconclusive(f'sanitizer build {sb.name} failed: {srcs[i]}\n{r.stderr[-3000:]}')
@@ -475,10 +477,12 @@ def reach_arm(prop, tier, seed, cov, inconcl, notes, arms_used):
                 reach[header.strip()] = {'file': os.path.relpath(path, V.REPO), 'lines': f'{loc[0]}-{loc[1]}', 'executable_lines': len(exe_lines), 'lines_hit': len(hit),
                                          'max_count': max((counts[n] for n in exe_lines), default=0), 'never_executed_lines': sorted(set(exe_lines) - set(hit))[:20]}
                 if not hit:
-                    inconcl.append(f'reach: anchored function "{header.strip()}" was never executed by the {prop} workload')
+                    notes.append(f'reach: anchored function "{header.strip()}" was never executed by the {prop} workload (dead after a refactoring, or unreached)')
                 break
             if not found:
                 notes.append(f'reach: anchor "{header.strip()}" not located in the current sources (refactored?)')
+        if reach and not any(v['lines_hit'] for v in reach.values()):
+            inconcl.append(f'reach: none of the anchored functions of {prop} was executed by its workload')
         cov['reach'] = {'configuration': 'g++ -O0 --coverage' + (' abacus' if abacus else ''), 'workload': 'the property workload at VERIF_SCALE 0.05, quick bounds',
                         'files_measured': sorted(os.path.relpath(p, V.REPO) for p in per_file), 'anchored_functions': reach}
     finally:
